@@ -203,6 +203,10 @@ static std::string stepLine(State& s, const std::vector<std::string>& w)
         s = State{};
         return "case";
     }
+    {
+        std::string extra;
+        if (stepExtra(s, w, extra)) return extra;
+    }
     if (w[0] == "pkt" && w.size() == 13)
     {
         Bytes d;
@@ -308,8 +312,6 @@ static std::string stepLine(State& s, const std::vector<std::string>& w)
         }
         return "bad-op";
     }
-    std::string extra;
-    if (stepExtra(s, w, extra)) return extra;
     return "bad-op";
 }
 
